@@ -429,7 +429,7 @@ PO8_AUDIT = {
         'the DP matrices are allocated with one row per observation (plus one for backward) and one column per state; the row is a loop index below that bound (or the last row, T >= 1) and the column is a State yielded by hmm.states(), which the Model contract keeps below num_states()',
     'stats::hmm::viterbi_matrices|index|index_mut(x0,array{0,Deref>::deref(x1)})<ndarray::ArrayBase<ndarray::OwnedRepr<usize>, ndarray::Dim<[usize; 2]>>>':
         'the DP matrices are allocated with one row per observation (plus one for backward) and one column per state; the row is a loop index below that bound (or the last row, T >= 1) and the column is a State yielded by hmm.states(), which the Model contract keeps below num_states()',
-    'stats::hmm::viterbi_matrices|unwrap|unwrap(Option::map(Iterator::max_by(Iterator::map(Iterator::enumerate(impl_methods>::iter(impl_methods>::index_axis(x0,Axis::Axis{0},Sub(x1,1).0))),closure{}),closure{arg1,x2,x1}),closure{}))<(stats::hmm::State, stats::probs::LogProb)>':
+    'stats::hmm::viterbi_matrices|unwrap|unwrap(Option::map(Iterator::max_by(Iterator::map(Iterator::enumerate(impl_methods>::iter(impl_methods>::index_axis(x0,Axis::Axis{0},P[-1 + x1].0))),closure{}),closure{arg1,x2,x1}),closure{}))<(stats::hmm::State, stats::probs::LogProb)>':
         'maximum over the states of a model with S >= 1 states: the iterator is not empty',
     'stats::hmm::viterbi_matrices|index|index_mut(x0,array{x1,Deref>::deref(x2)})<ndarray::ArrayBase<ndarray::OwnedRepr<stats::probs::LogProb>, ndarray::Dim<[usize; 2]>>>':
         'the DP matrices are allocated with one row per observation (plus one for backward) and one column per state; the row is a loop index below that bound (or the last row, T >= 1) and the column is a State yielded by hmm.states(), which the Model contract keeps below num_states()',
@@ -441,13 +441,13 @@ PO8_AUDIT = {
         'maximum over the states of a model with S >= 1 states: the iterator is not empty',
     'stats::hmm::viterbi_traceback|overflow-sub|impl_methods>::len_of(arg1,Axis::Axis{0}),x0':
         'the loop index runs over 1..=len of axis 0',
-    'stats::hmm::viterbi_traceback|index|index(arg2,array{Sub(impl_methods>::len_of(arg1,Axis::Axis{0}),x0).0,x1})<ndarray::ArrayBase<ndarray::OwnedRepr<usize>, ndarray::Dim<[usize; 2]>>>':
+    'stats::hmm::viterbi_traceback|index|index(arg2,array{P[impl_methods>::len_of(arg1,Axis::Axis{0}) + -1*x0].0,x1})<ndarray::ArrayBase<ndarray::OwnedRepr<usize>, ndarray::Dim<[usize; 2]>>>':
         'the DP matrices are allocated with one row per observation (plus one for backward) and one column per state; the row is a loop index below that bound (or the last row, T >= 1) and the column is a State yielded by hmm.states(), which the Model contract keeps below num_states()',
     'stats::hmm::viterbi|overflow-sub|slice::len(arg2),1':
         'observation sequences are non-empty (T >= 1, quantifier of C14)',
-    'stats::hmm::viterbi|index|index(x0,array{Sub(slice::len(arg2),1).0,Deref>::deref(x1)})<ndarray::ArrayBase<ndarray::OwnedRepr<stats::probs::LogProb>, ndarray::Dim<[usize; 2]>>>':
+    'stats::hmm::viterbi|index|index(x0,array{P[-1 + slice::len(arg2)].0,Deref>::deref(x1)})<ndarray::ArrayBase<ndarray::OwnedRepr<stats::probs::LogProb>, ndarray::Dim<[usize; 2]>>>':
         'the DP matrices are allocated with one row per observation (plus one for backward) and one column per state; the row is a loop index below that bound (or the last row, T >= 1) and the column is a State yielded by hmm.states(), which the Model contract keeps below num_states()',
-    'stats::hmm::viterbi|index|index_mut(x0,array{Sub(slice::len(arg2),1).0,Deref>::deref(x1)})<ndarray::ArrayBase<ndarray::OwnedRepr<stats::probs::LogProb>, ndarray::Dim<[usize; 2]>>>':
+    'stats::hmm::viterbi|index|index_mut(x0,array{P[-1 + slice::len(arg2)].0,Deref>::deref(x1)})<ndarray::ArrayBase<ndarray::OwnedRepr<stats::probs::LogProb>, ndarray::Dim<[usize; 2]>>>':
         'the DP matrices are allocated with one row per observation (plus one for backward) and one column per state; the row is a loop index below that bound (or the last row, T >= 1) and the column is a State yielded by hmm.states(), which the Model contract keeps below num_states()',
     'stats::hmm::forward|index|index_mut(x0,array{0,Deref>::deref(x1)})<ndarray::ArrayBase<ndarray::OwnedRepr<stats::probs::LogProb>, ndarray::Dim<[usize; 2]>>>':
         'the DP matrices are allocated with one row per observation (plus one for backward) and one column per state; the row is a loop index below that bound (or the last row, T >= 1) and the column is a State yielded by hmm.states(), which the Model contract keeps below num_states()',
@@ -455,15 +455,15 @@ PO8_AUDIT = {
         'the DP matrices are allocated with one row per observation (plus one for backward) and one column per state; the row is a loop index below that bound (or the last row, T >= 1) and the column is a State yielded by hmm.states(), which the Model contract keeps below num_states()',
     'stats::hmm::forward|overflow-sub|x0,1':
         'the closure runs inside the loop over rows 1..T: i >= 1',
-    'stats::hmm::forward|index|index(x0,array{Sub(x1,1).0,Deref>::deref(x2)})<ndarray::ArrayBase<ndarray::OwnedRepr<stats::probs::LogProb>, ndarray::Dim<[usize; 2]>>>':
+    'stats::hmm::forward|index|index(x0,array{P[-1 + x1].0,Deref>::deref(x2)})<ndarray::ArrayBase<ndarray::OwnedRepr<stats::probs::LogProb>, ndarray::Dim<[usize; 2]>>>':
         'the DP matrices are allocated with one row per observation (plus one for backward) and one column per state; the row is a loop index below that bound (or the last row, T >= 1) and the column is a State yielded by hmm.states(), which the Model contract keeps below num_states()',
     'stats::hmm::forward|overflow-sub|slice::len(arg2),1':
         'observation sequences are non-empty (T >= 1, quantifier of C14)',
-    'stats::hmm::forward|index|index(x0,array{Sub(slice::len(arg2),1).0,Deref>::deref(x1)})<ndarray::ArrayBase<ndarray::OwnedRepr<stats::probs::LogProb>, ndarray::Dim<[usize; 2]>>>':
+    'stats::hmm::forward|index|index(x0,array{P[-1 + slice::len(arg2)].0,Deref>::deref(x1)})<ndarray::ArrayBase<ndarray::OwnedRepr<stats::probs::LogProb>, ndarray::Dim<[usize; 2]>>>':
         'the DP matrices are allocated with one row per observation (plus one for backward) and one column per state; the row is a loop index below that bound (or the last row, T >= 1) and the column is a State yielded by hmm.states(), which the Model contract keeps below num_states()',
     'stats::hmm::backward|index|index_mut(x0,array{0,Deref>::deref(x1)})<ndarray::ArrayBase<ndarray::OwnedRepr<stats::probs::LogProb>, ndarray::Dim<[usize; 2]>>>':
         'the DP matrices are allocated with one row per observation (plus one for backward) and one column per state; the row is a loop index below that bound (or the last row, T >= 1) and the column is a State yielded by hmm.states(), which the Model contract keeps below num_states()',
-    'stats::hmm::backward|index|index_mut(x0,array{Add(1,x1).0,Deref>::deref(x2)})<ndarray::ArrayBase<ndarray::OwnedRepr<stats::probs::LogProb>, ndarray::Dim<[usize; 2]>>>':
+    'stats::hmm::backward|index|index_mut(x0,array{P[1 + x1].0,Deref>::deref(x2)})<ndarray::ArrayBase<ndarray::OwnedRepr<stats::probs::LogProb>, ndarray::Dim<[usize; 2]>>>':
         'the DP matrices are allocated with one row per observation (plus one for backward) and one column per state; the row is a loop index below that bound (or the last row, T >= 1) and the column is a State yielded by hmm.states(), which the Model contract keeps below num_states()',
     'stats::hmm::backward|overflow-sub|slice::len(arg2),1':
         'observation sequences are non-empty (T >= 1, quantifier of C14)',
